@@ -30,6 +30,9 @@ PROGRAMS = [
     ('heart-return', '형...♥ 흣. 형♡ 형.... 항...?♥ %s 항.' % P65),
     ('exit0', '%s 항. %s 흑. 항 %s 항.' % (P65, P66, P67)),
     ('exit1', '%s 항.. %s 흑.. 항 %s 항.' % (P65, P66, P67)),
+    # text waiting on one stream when the exit is requested through the other
+    ('exit0-after-stderr', '%s 항.. %s 항. %s 항.. %s 흑. 항 %s 항.' % (P65, P66, P67, P49, P66)),
+    ('exit1-after-stdout', '%s 항. %s 항.. %s 항. %s 흑.. 항 %s 항.' % (P65, P66, P67, P49, P66)),
     ('encoding', '%s 항. %s 항. %s 항.' % (P65, big(216, 256), P66)),
     ('fractions', '형.. 흡... 형... 흣... 형. 형 흡... 하앙....'),
     ('two-stacks', '%s 흑.... 형.. 항... 흑... 항. 항..' % P65),
